@@ -23,7 +23,7 @@ func init() {
 			"C07.6 installed addresses do not alias decode storage (else expiry removes another peer's key); " +
 			"C07.7 the lifetime timer that a refresh restarts belongs to the entry the table holds now (obtained by lookup/index/range of the table through all call sites), never to a pointer remembered elsewhere; " +
 			"C07.9 (=C01.9) the permission key is a canonical form of the peer IP, so a refresh in either spelling of an IPv4 address restarts the one entry; " +
-			"C07.5 find-and-remove in RemoveChannelBind/RemovePermission is one critical section: every direct read of the table in a function that removes from it happens under the same continuous hold of the write lock.",
+			"C07.5 find-and-remove in RemoveChannelBind/RemovePermission is one critical section: every direct read of the table in a function that removes from it happens under the same continuous hold of the write lock. C07.10 (=C05.10) a bound channel relays until it expires: closed refusal sets of the ChannelData path and the relay loop.",
 		NotCovered: "the instants at which timers fire; that an expired number/peer is free again beyond the removal checked in C07.3; races between expiry and a concurrent refresh.",
 		Run:        runC07,
 	})
@@ -286,6 +286,7 @@ func runC07(c *Ctx) {
 	ruleInstalledAddrFresh(c, "C07.6")
 	ruleTimerOnLiveEntry(c, "C07.7")
 	ruleReportWithRemoval(c, "C07.8")
+	ruleChannelPathRefusals(c, "C07.10")
 
 	// ---- C07.9 (=C01.9/C02.3): a refresh finds the entry it refreshes however the peer's IPv4
 	// address is spelled — the permission key is a canonical form of the IP
